@@ -339,6 +339,8 @@ def conclude(mod, prop, tier, seed, merged, distinct, wall, replaying=False):
         merged["inconclusive"].append("no case was evaluated")
     if not replaying and distinct < 2:
         merged["inconclusive"].append("fewer than two distinct non-trivial cases")
+    if not replaying and not merged["samples"]:
+        merged["inconclusive"].append("the run recorded no sample case")
     lines = []
     violations = 0
     known = {}
